@@ -1557,37 +1557,40 @@ class Engine:
         self.oblige(f"loop{lid}/inv-entry", s0, spec.inv(s0, z3.IntVal(0), N), kind="invariant")
         if spec.qinv:
             self.qoblige(f"loop{lid}/inv-entry", s0, spec.qinv(s0, z3.IntVal(0), N), kind="invariant")
-        h = self.fork(s0)
+        h0 = self.fork(s0)
         k = self.sym_int(f"k{lid}")
-        spec.havoc(self, h, f"L{lid}")
-        it = self.fork(h)
-        it.pc += [k >= 0, k < N, to_z3(spec.inv(it, k, N))]
-        if spec.qinv:
-            it.ghost["Q"] = list(it.ghost.get("Q", [])) + spec.qinv(it, k, N)
-        if not self.feasible(it.pc):
-            it = None
-        if it is not None:
-            self.assign(n.target, seq.elem(k, it), it)
-            for kind, val, s2 in self.run(n.body, it):
-                if kind in ("normal", "continue"):
-                    self.oblige(f"loop{lid}/inv-preserved", s2, spec.inv(s2, k + 1, N), kind="invariant")
-                    if spec.qinv:
-                        self.qoblige(f"loop{lid}/inv-preserved", s2, spec.qinv(s2, k + 1, N), kind="invariant")
-                elif kind == "break":
-                    if spec.on_break is None:
-                        raise Unsupported("break in a symbolic for loop needs on_break")
-                    outs.append(("normal", None, spec.on_break(s2)))
+        heads = spec.havoc(self, h0, f"L{lid}")
+        # a havoc may split into several heads (a python-valued field that ranges over a few concrete values)
+        heads = heads if isinstance(heads, list) else [h0]
+        for h in heads:
+            it = self.fork(h)
+            it.pc += [k >= 0, k < N, to_z3(spec.inv(it, k, N))]
+            if spec.qinv:
+                it.ghost["Q"] = list(it.ghost.get("Q", [])) + spec.qinv(it, k, N)
+            if not self.feasible(it.pc):
+                it = None
+            if it is not None:
+                self.assign(n.target, seq.elem(k, it), it)
+                for kind, val, s2 in self.run(n.body, it):
+                    if kind in ("normal", "continue"):
+                        self.oblige(f"loop{lid}/inv-preserved", s2, spec.inv(s2, k + 1, N), kind="invariant")
+                        if spec.qinv:
+                            self.qoblige(f"loop{lid}/inv-preserved", s2, spec.qinv(s2, k + 1, N), kind="invariant")
+                    elif kind == "break":
+                        if spec.on_break is None:
+                            raise Unsupported("break in a symbolic for loop needs on_break")
+                        outs.append(("normal", None, spec.on_break(s2)))
+                    else:
+                        outs.append((kind, val, s2))
+            exit_ = self.fork(h)
+            exit_.pc.append(to_z3(spec.inv(exit_, N, N)))
+            if spec.qinv:
+                exit_.ghost["Q"] = list(exit_.ghost.get("Q", [])) + spec.qinv(exit_, N, N)
+            if self.feasible(exit_.pc):
+                if n.orelse:
+                    outs += self.run(n.orelse, exit_)
                 else:
-                    outs.append((kind, val, s2))
-        exit_ = self.fork(h)
-        exit_.pc.append(to_z3(spec.inv(exit_, N, N)))
-        if spec.qinv:
-            exit_.ghost["Q"] = list(exit_.ghost.get("Q", [])) + spec.qinv(exit_, N, N)
-        if self.feasible(exit_.pc):
-            if n.orelse:
-                outs += self.run(n.orelse, exit_)
-            else:
-                outs.append(("normal", None, exit_))
+                    outs.append(("normal", None, exit_))
         return outs
 
     def for_iterator(self, n, it, s0, lid, spec):
